@@ -37,7 +37,13 @@ RULE = (
     "final rename_seqs; collection.get_features filtered by seqid / biotype / name (new style: start / stop) as exact multisets of "
     "(sequence, feature, residues); then one sequence taken out with get_seq and put through slices, strided slices, rc, copy, "
     "deepcopy, degap and the window queries above; finally the collection the history started from, and a collection degapped "
-    "from it, must answer as before. Expected membership uses the feature envelope; "
+    "from it, must answer as before. Collections made FROM annotated sequences: 2-3 make_seq parents (old / new style), each with its "
+    "own annotation db, views of them (unit slices, rc, positive strides), and make_unaligned_seqs([v0, v1]) / make_unaligned_seqs({name: v}) "
+    "/ (old style) make_aligned_seqs of equal-length views with array_align=False, constructed 1-3 times: collection.get_features "
+    "(filtered by seqid / biotype / name, allow_partial True and False) and collection.get_seq(name).get_features() must return exactly "
+    "the features of each parent that overlap (lie inside) what the member shows, slicing the same residues of the original parent; "
+    "what the source sequences and views answer, and the number of records in their dbs, must not change by constructing the collection "
+    "(again). Expected membership uses the feature envelope; "
     "expected residues come from the index model. Non-trivial = a multi-span or minus-strand feature only partly inside a view "
     "whose history contains an rc; distinct = distinct case encodings."
 )
@@ -56,6 +62,8 @@ ASSUMPTIONS = [
     "collections: new-style SequenceCollection.rc() and degap() are documented not to retain the annotation db, so the db is attached again (coll.annotation_db = db) before anything is asked; new-style collections have no annotation offsets. rename_seqs is only the last collection-level operation: old-style renamed sequences keep their features and can be asked for by the original seqid (pinned by tests/test_core/test_alignment.py::test_seq_rename_preserves_annotations); new-style renamed sequences carry a new seqid and nothing documents what becomes of records bound to the old one, so for them it is only required that whatever is returned denotes the right residues",
     "collection.get_features: 'seqid ... defaults to search all', 'allow_partial: allow features partially overlaping self': the answer is the multiset of features of the member sequences, each restricted to the part of its sequence the collection shows (for a collection of whole sequences: all of them); records of seqids that are not members are never returned and must not disturb the query (take_seqs(copy_annotations=False) is pinned to share the db). The new-style start / stop window is in absolute coordinates; its docstring calls start 'not inclusive' and stop 'inclusive' while the db treats it as [start, stop), so a query is only judged when both readings agree for every feature",
     "the collection a history started from is not changed by deriving other collections from it (same answers afterwards, also from a collection degapped from it again)",
+    "collections constructed from annotated sequences: 'If no annotation_db is provided, but the sequences are annotated, an annotation_db is created by merging any annotation db's found in the sequences' (make_unaligned_seqs; merged_db_collection is run by every old-style constructor too), so the collection must answer for every member what that member sequence answered before: a member made from a view shows part of its parent and only the features overlapping (inside) that part are expected, with the residues of the original parent. Keys of a dict equal the sequence names; feature names are distinct within a case (an alignment reports a row feature without naming its row, the slice of a row feature of an alignment is read from its row). Alignments are made from gap-free equal-length unit-step views that are all on the same strand (what Alignment.rc() produces); strided members only occur in unaligned collections and are compared with the allow_partial=True whole-view oracle of the strided sub-check (collection-level allow_partial=False queries are skipped when a member is strided)",
+    "constructing a collection must not change what its source sequences / views answer nor the number of records of a source's own seqid in its db; after a second and third construction from the same sequences every source db must hold as many records as after the first (old-style unaligned collections bind the very sequence objects they are given to the merged db, so the first construction may legitimately change len(seq.annotation_db); that is not asserted). Circumstance tags: [rows-realised-from-views] = a new-style collection or an old-style alignment built from a sequence that is a proper view (its rows are realised from the displayed characters); [merged-again] = a second / third construction from sequences holding more than one distinct annotated db",
     "get_projected_features is called with on_alignment=False (with the default it re-projects every alignment feature once per row); a source feature matched by its envelope but with no residues in the view gives the circumstance tag [source-feature-without-residues-in-view]",
 ]
 
@@ -1390,11 +1398,318 @@ def exec_coll(case) -> Soft:
     return s
 
 
+# ------------------------------------- collections constructed FROM annotated sequences
+@st.composite
+def fromseq_cases(draw):
+    """annotated make_seq parents (each with its own annotation db), views of them (slice / rc / positive stride), and a
+    collection or alignment constructed from the views - the route 'an annotation_db is created by merging any annotation
+    db's found in the sequences'"""
+    impl = draw(st.sampled_from(["new", "old"]))
+    route = draw(st.sampled_from(["list", "dict"] if impl == "new" else ["list", "dict", "aligned", "aligned"]))
+    nseq = draw(st.integers(2, 3))
+    parents = []
+    for r in range(nseq):
+        n_ = draw(st.integers(6, 24))
+        parents.append([f"s{r}", "".join(draw(st.lists(st.sampled_from("ACGT"), min_size=n_, max_size=n_)))])
+    whole_rows = route == "aligned" and draw(st.integers(0, 2)) == 0
+    if whole_rows:
+        # parents of equal length: the alignment is made from whole annotated sequences
+        shortest = min(len(sq) for _, sq in parents)
+        parents = [[name, sq[:shortest]] for name, sq in parents]
+    feats = []
+    for name, sq in parents:
+        for _ in range(draw(st.sampled_from([0, 1, 1, 2]))):
+            f = draw(feature_st(len(sq), 0, len(feats)))
+            f["name"] = f"f{len(feats)}"  # distinct names: an alignment reports a row feature without its row
+            f["seqid"] = name
+            feats.append(f)
+    if not feats:
+        f = draw(feature_st(len(parents[0][1]), 0, 0))
+        f["name"], f["seqid"] = "f0", parents[0][0]
+        feats.append(f)
+    views = {}
+    if route == "aligned":
+        # equal-length unit-step views, all on the same strand (as Alignment.rc() makes them)
+        shortest = min(len(sq) for _, sq in parents)
+        n = shortest if whole_rows else draw(st.integers(1, shortest))
+        flip = draw(st.booleans())
+        for name, sq in parents:
+            a = draw(st.sampled_from([0, len(sq) - n])) if draw(st.integers(0, 3)) == 0 else draw(st.integers(0, len(sq) - n))
+            ops = [] if (a == 0 and n == len(sq)) else [["slice", a, a + n, 1]]
+            if flip:
+                ops.append(["rc"])
+            views[name] = ops
+    else:
+        for name, sq in parents:
+            tfeats = [f for f in feats if f["seqid"] == name]
+            V = list(range(len(sq)))
+            rev = strided = False
+            ops = []
+            for _ in range(draw(st.sampled_from([0, 1, 1, 2, 3]))):
+                n = len(V)
+                kind = draw(st.sampled_from(["slice", "slice", "slice", "rc", "rc", "stride"]))
+                if kind == "rc":
+                    if strided:
+                        continue
+                    ops.append(["rc"])
+                    V = V[::-1]
+                    rev = not rev
+                    continue
+                if n < 2:
+                    continue
+                k = draw(st.sampled_from([2, 2, 3])) if kind == "stride" else 1
+                pts = set()
+                if k == 1 and not strided:
+                    for f in tfeats:
+                        for s_, e_ in f["spans"]:
+                            for x in (s_, e_):
+                                v = (max(V) + 1 - x) if rev else (x - min(V))
+                                for d in (-1, 0, 1, 2):
+                                    if 0 <= v + d <= n:
+                                        pts.add(v + d)
+                pts = sorted(pts)
+                if len(pts) >= 2 and draw(st.integers(0, 9)) < 6:
+                    i = draw(st.integers(0, len(pts) - 2))
+                    j = draw(st.integers(i + 1, len(pts) - 1))
+                    a, b = pts[i], pts[j]
+                else:
+                    a = draw(st.integers(0, n - 1))
+                    b = draw(st.integers(a + 1, n))
+                ops.append(["slice", a, b, k])
+                V = V[a:b:k]
+                strided = strided or k > 1
+            views[name] = ops
+    names = [p[0] for p in parents]
+    cqueries = [{"allow_partial": True}, {"allow_partial": False}]
+    for _ in range(draw(st.integers(0, 2))):
+        q = {"allow_partial": draw(st.booleans())}
+        if draw(st.booleans()):
+            q["seqid"] = draw(st.sampled_from(names))
+        if draw(st.integers(0, 2)) == 0:
+            q["biotype"] = draw(st.sampled_from(["gene", "exon", "cds"]))
+        if draw(st.integers(0, 3)) == 0:
+            q["name"] = draw(st.sampled_from([f["name"] for f in feats]))
+        cqueries.append(q)
+    return {"impl": impl, "route": route, "as_dict": draw(st.booleans()), "parents": parents, "features": feats, "views": views,
+            "repeat": draw(st.sampled_from([1, 1, 2, 3])), "coll_queries": cqueries}
+
+
+def exec_fromseq(case) -> Soft:
+    from cogent3 import make_aligned_seqs, make_seq, make_unaligned_seqs
+
+    s = Soft("C04/")
+    impl, route = case["impl"], case["route"]
+    new = impl == "new"
+    aligned = route == "aligned"
+    pre = f"from-seqs/{impl}/{'aligned' if aligned else 'unaligned'}/"
+    parents = {nm: sq for nm, sq in case["parents"]}
+    names = [nm for nm, _ in case["parents"]]
+    feats = case["features"]
+    what0 = f"{impl} {route} parents {case['parents']} features {feats} views {case['views']} repeat {case['repeat']}"
+
+    # ---- the annotated parents (each with its own annotation db) and the views of them
+    src, vws, model = {}, {}, {}
+    for nm in names:
+        ok, sq = s.call(pre + "make_seq", lambda: make_seq(parents[nm], name=nm, moltype="dna", new_type=new))
+        if not ok:
+            return s
+        for f in feats:
+            if f["seqid"] != nm:
+                continue
+            ok, _ = s.call(pre + "seq.add_feature", lambda: sq.add_feature(biotype=f["biotype"], name=f["name"], spans=[tuple(x) for x in f["spans"]], strand=f["strand"]))
+            if not ok:
+                return s
+        src[nm] = sq
+        V = list(range(len(parents[nm])))
+        rev = strided = False
+        vw = sq
+        for op in case["views"][nm]:
+            if op[0] == "rc":
+                ok, vw = s.call(pre + "seq.rc", vw.rc)
+                V = V[::-1]
+                rev = not rev
+            else:
+                a, b, k = op[1], op[2], op[3]
+                ok, vw = s.call(pre + ("seq.stride" if k > 1 else "seq.slice"), lambda: vw[a:b:k] if k > 1 else vw[a:b])
+                V = V[a:b:k]
+                strided = strided or k > 1
+            if not ok:
+                return s
+        vws[nm] = vw
+        model[nm] = (V, rev, strided)
+
+    def shown(nm):
+        V, rev, _ = model[nm]
+        txt = "".join(parents[nm][i] for i in V)
+        return "".join(COMP[c] for c in txt) if rev else txt
+
+    def is_view(nm):
+        V, rev, _ = model[nm]
+        return rev or V != list(range(len(parents[nm])))
+
+    def wanted(nm, q):
+        """features of member nm expected from a whole-member query: (exact records, records that must be
+        returned when the member is strided, (name, biotype) that may also come back with an empty slice)"""
+        V, rev, strided = model[nm]
+        lo, hi = min(V), max(V) + 1
+        Vset = set(V)
+        exact, must, may_empty = [], [], []
+        for f in feats:
+            if f["seqid"] != nm or ("biotype" in q and f["biotype"] != q["biotype"]) or ("name" in q and f["name"] != q["name"]):
+                continue
+            if strided:
+                idx = [i for a, b in f["spans"] for i in range(a, b) if i in Vset]
+                txt = "".join(parents[nm][i] for i in idx)
+                txt = rc(txt) if f["strand"] == "-" else txt
+                (must if txt else may_empty).append((nm, f["name"], f["biotype"], txt))
+                continue
+            fs, fe = min(x[0] for x in f["spans"]), max(x[1] for x in f["spans"])
+            hit = (fs < hi and fe > lo) if q["allow_partial"] else (lo <= fs and fe <= hi)
+            if hit:
+                exact.append((nm, f["name"], f["biotype"], expected_slice(parents[nm], 0, f, lo, hi)))
+        return exact, must, may_empty
+
+    def source_state(sig):
+        """what the source sequences and their views answer, and how many records of its own seqid each source db holds"""
+        state = {}
+        for nm in names:
+            for label, obj in (("parent", src[nm]), ("view", vws[nm])):
+                ok, fts = s.call(sig + f"/{label}.get_features", lambda: sorted((ft.name, ft.biotype, str(ft.get_slice())) for ft in obj.get_features(allow_partial=True)))
+                if not ok:
+                    return None
+                state[f"{label} {nm} features"] = fts
+            db = src[nm].annotation_db
+            if db is not None:
+                ok, num = s.call(sig + "/num_matches", lambda: db.num_matches(seqid=nm))
+                if not ok:
+                    return None
+                state[f"parent {nm} own records"] = num
+        return state
+
+    def db_sizes():
+        return {nm: (len(src[nm].annotation_db) if src[nm].annotation_db is not None else 0) for nm in names}
+
+    annotated = [nm for nm in names if any(f["seqid"] == nm for f in feats)]
+    any_view = any(is_view(nm) for nm in names)
+    # circumstances of confirmed findings (see known_findings.json): the rows of a new-style collection / an old-style
+    # alignment are realised from the displayed characters of a view; several distinct dbs are merged again
+    vtag = "[rows-realised-from-views]" if (any_view and (new or aligned)) else ""
+    before = source_state(pre + "source-before")
+    if before is None:
+        return s
+
+    def construct():
+        if aligned:
+            data = {nm: vws[nm] for nm in names} if case.get("as_dict") else [vws[nm] for nm in names]
+            return make_aligned_seqs(data, moltype="dna", array_align=False)
+        data = {nm: vws[nm] for nm in names} if route == "dict" else [vws[nm] for nm in names]
+        return make_unaligned_seqs(data, moltype="dna", new_type=new)
+
+    coll = None
+    sizes1 = None
+    for r in range(case["repeat"]):
+        rtag = "[merged-again]" if (r > 0 and len(annotated) > 1) else ""
+        ok, coll = s.call(pre + "construct", construct)
+        if not ok:
+            return s
+        ok, d = s.call(pre + "to_dict", coll.to_dict)
+        if not ok or not s.eq(d, {nm: shown(nm) for nm in names}, pre + "to_dict", what0):
+            return s
+        # ---- constructing a collection does not change what the source sequences answer
+        after = source_state(pre + "source-after")
+        if after is None:
+            return s
+        s.eq(after, before, pre + "source-changed" + rtag, what0)
+        sizes = db_sizes()
+        if r == 0:
+            sizes1 = sizes
+        else:
+            s.eq(sizes, sizes1, pre + "source-db-grows-on-repeat" + rtag, f"{what0}: records in the source dbs after construction 1 {sizes1}, after construction {r + 1} {sizes}")
+        # ---- collection-level queries
+        for q in case["coll_queries"] if r == case["repeat"] - 1 else case["coll_queries"][:2]:
+            kw = {k: q[k] for k in ("seqid", "biotype", "name") if k in q}
+            ap = q["allow_partial"]
+            if any(model[nm][2] for nm in names) and not ap:
+                continue  # strided members: only the allow_partial=True reading is modelled
+            sig = pre + "get_features" + ("[partial]" if ap else "") + vtag + rtag
+            ok, fts = s.call(sig, lambda: list(coll.get_features(allow_partial=ap, **kw)))
+            if not ok:
+                continue
+            owner = {f["name"]: f["seqid"] for f in feats}
+            got, bad = [], False
+            for ft in fts:
+                row = owner.get(ft.name)
+                ok2, sl = s.call(sig + "/get_slice", ft.get_slice)
+                if not ok2:
+                    bad = True
+                    continue
+                if hasattr(sl, "to_dict"):
+                    # the slice of a row feature of an alignment is the alignment restricted to the feature's columns
+                    ok2, dd = s.call(sig + "/get_slice/to_dict", sl.to_dict)
+                    if not ok2:
+                        bad = True
+                        continue
+                    txt = dd.get(row, "")
+                else:
+                    txt = str(sl)
+                    if ft.seqid != row:
+                        s.fail(sig + "/seqid", f"{what0} query {q}: feature {ft.name} reported for {ft.seqid!r}, belongs to {row!r}")
+                got.append((row, ft.name, ft.biotype, txt))
+            if bad:
+                continue
+            exact, must, may_empty = [], [], []
+            for nm in names:
+                if "seqid" in q and q["seqid"] != nm:
+                    continue
+                e_, m_, y_ = wanted(nm, q)
+                exact += e_
+                must += m_
+                may_empty += y_
+            what = f"{what0} query {q}"
+            loose = {x[:3] for x in may_empty}
+            got_firm = sorted(g for g in got if not (g[:3] in loose and not g[3]))
+            want_firm = sorted(exact + must)
+            if sorted(x[:3] for x in got_firm) != sorted(x[:3] for x in want_firm):
+                s.fail(sig + "/membership", f"{what}: returned {sorted(got)} expected {want_firm}")
+            elif got_firm != want_firm:
+                s.fail(sig + "/residues", f"{what}: returned {sorted(got)} expected {want_firm}")
+        s.cls("construction:" + str(r + 1))
+    s.cls(impl, "route:" + route, "from-views" if any_view else "from-whole-seqs", "dbs:" + ("several" if len(annotated) > 1 else "one"))
+
+    # ---- the member sequences of the last collection
+    nontriv = False
+    mtag_r = "[merged-again]" if (case["repeat"] > 1 and len(annotated) > 1) else ""
+    for nm in names:
+        V, rev, strided = model[nm]
+        mtag = ("[rows-realised-from-views]" if (is_view(nm) and (new or aligned)) else "") + mtag_r
+        spre = pre + "seq/"
+        ok, sq = s.call(spre + "get_seq", lambda: coll.get_seq(nm))
+        if not ok:
+            continue
+        ok, txt = s.call(spre + "str", str, sq)
+        if not ok or not s.eq(txt, shown(nm), spre + "str", f"{what0} member {nm}"):
+            continue
+        tfeats = [f for f in feats if f["seqid"] == nm]
+        hist_txt = f"({what0}) member {nm}"
+        if strided:
+            s.cls("strided-member")
+            nontriv = whole_view_strided(s, spre + "strided" + mtag + "/", sq, parents[nm], 0, tfeats, V, hist_txt) or nontriv
+        else:
+            lo, hi = min(V), max(V) + 1
+            qs = [{"allow_partial": True}, {"allow_partial": False}]
+            if hi - lo > 1:
+                qs.append({"allow_partial": True, "start": 1, "stop": hi - lo})
+            nontriv = run_queries(s, spre, sq, parents[nm], 0, tfeats, lo, hi, rev, rev, qs, mtag, hist_txt) or nontriv
+    s.nontrivial = nontriv or (any_view and any((len(f["spans"]) > 1 or f["strand"] == "-") and model[f["seqid"]][1] for f in feats))
+    return s
+
+
 SUBS = [
     Sub("sequence", exec_seq, strategy=seq_cases(), quick=2400, thorough=320_000, shards_quick=16),
     Sub("alignment", exec_aln, strategy=aln_cases(), quick=800, thorough=64_000, shards_quick=16),
     Sub("strided", exec_strided, strategy=strided_cases(), quick=1200, thorough=96_000, shards_quick=16),
     Sub("collection", exec_coll, strategy=coll_cases(), quick=1200, thorough=96_000, shards_quick=16),
+    Sub("from-seqs", exec_fromseq, strategy=fromseq_cases(), quick=800, thorough=96_000, shards_quick=16),
 ]
 
 KNOWN_PREDICATES = {}
@@ -1408,7 +1723,7 @@ FUZZ = {
 
 META = {
     "technique": "Hypothesis-generated features, view histories and query windows against an index-set model of features and views (sequence and alignment level)",
-    "level_text": "Old- and new-style sequence collections (also those obtained by degapping alignment views) are annotated through every loading route, put through rc / take_seqs / degap / copy / rename histories and queried at collection level and through sequences taken out of them, with one-sided, negative and swapped windows, seq[feature] and get_slice(complete=True). Thousands of generated cases per run place single- and multi-span features of either strand on old- and new-style sequences (with and without an annotation offset; added through the API or loaded from generated GFF3 text) and on gapped alignments, apply slice/rc/copy/degap histories, and compare every feature returned by window queries, its residues and its coordinates with a model that works on plain parent indices; alignment-level queries filtered by seqid, biotype, name and on_alignment are compared as exact name sets with and without partial matches; the row sequences of a view and of the collection obtained by degapping it are queried against the same model; projections through gapped rows (one feature, and all features of the other rows) are compared column by column.",
+    "level_text": "Collections and alignments are also constructed from annotated sequences and their slice / rc / strided views (the merged-db route), repeatedly, and must answer like their source sequences while leaving those untouched. Old- and new-style sequence collections (also those obtained by degapping alignment views) are annotated through every loading route, put through rc / take_seqs / degap / copy / rename histories and queried at collection level and through sequences taken out of them, with one-sided, negative and swapped windows, seq[feature] and get_slice(complete=True). Thousands of generated cases per run place single- and multi-span features of either strand on old- and new-style sequences (with and without an annotation offset; added through the API or loaded from generated GFF3 text) and on gapped alignments, apply slice/rc/copy/degap histories, and compare every feature returned by window queries, its residues and its coordinates with a model that works on plain parent indices; alignment-level queries filtered by seqid, biotype, name and on_alignment are compared as exact name sets with and without partial matches; the row sequences of a view and of the collection obtained by degapping it are queried against the same model; projections through gapped rows (one feature, and all features of the other rows) are compared column by column.",
     "level_note": "Trusts the index model (about 60 lines). Features added to already sliced views and strided views are outside the domain (see assumptions).",
     "design_ref": "DESIGN.md section 1, C04",
 }
